@@ -145,6 +145,7 @@ def gen_history(seed, i, maxlen=5):
     ops = []
     lists = {}
     older = {}   # group -> lists it held before (reverting to one of them is a change like any other)
+    removed = {}  # group -> the list it held when it was removed (re-adding exactly that is a first add of a new group)
 
     def replace(g, lst):
         if g in lists:
@@ -155,7 +156,9 @@ def gen_history(seed, i, maxlen=5):
     for _ in range(r.randint(1, maxlen)):
         k = r.random()
         g = r.choice(GROUPS)
-        if g not in lists or k < 0.4:
+        if g not in lists and g in removed and r.random() < 0.6:
+            replace(g, removed.pop(g))                           # removed, then added again with the very same content
+        elif g not in lists or k < 0.4:
             replace(g, gen_list(r))                              # first add / new content
         elif k < 0.55:
             ops.append({"op": "add", "group": g, "list": lists[g]})  # identical re-add
@@ -179,6 +182,7 @@ def gen_history(seed, i, maxlen=5):
             replace(g, gen_list(r))
         elif k < 0.88:
             ops.append({"op": "remove", "group": g})
+            removed[g] = lists[g]
             lists.pop(g, None)
             older.pop(g, None)
         else:
